@@ -31,7 +31,9 @@ func (s *SyslogIngester) Ingest(ctx context.Context) error {
 }
 
 func (s *SyslogIngester) Process(ctx context.Context, line string) error {
-	sm := s.ParseSyslogMessage(line)
+	// The named pipe ingester delivers each record together with its
+	// terminating newline, which is not part of the log message.
+	sm := s.ParseSyslogMessage(strings.TrimSuffix(line, "\n"))
 	return s.SshdProcessor.ProcessSshdLogEntry(ctx, sm)
 }
 
